@@ -629,6 +629,18 @@ static carquet_status_t load_dictionary_page_mmap(
     return status;
 }
 
+#ifdef CARQUET_VERIF
+/* Verification hook (compiled only with -DCARQUET_VERIF; NULL by default = no effect).
+ * Called between an fseek on the reader's FILE* and the fread that relies on it, so that a test
+ * driver can force a chosen interleaving of the per-column page loads.
+ * site: 0 = dictionary header, 1 = dictionary body, 2 = data page header, 3 = data page body. */
+void (*carquet_verif_io_yield)(int site, int row_group, int column) = NULL;
+#define CARQUET_VERIF_IO_YIELD(site, r) \
+    do { if (carquet_verif_io_yield) carquet_verif_io_yield((site), (r)->row_group_index, (r)->column_index); } while (0)
+#else
+#define CARQUET_VERIF_IO_YIELD(site, r) ((void)0)
+#endif
+
 /* ============================================================================
  * Helper: Load dictionary page (fread path)
  * ============================================================================
@@ -647,6 +659,7 @@ static carquet_status_t load_dictionary_page_fread(
         CARQUET_SET_ERROR(error, CARQUET_ERROR_FILE_SEEK, "Failed to seek to dictionary");
         return CARQUET_ERROR_FILE_SEEK;
     }
+    CARQUET_VERIF_IO_YIELD(0, reader);
 
     /* Read page header */
     uint8_t header_buf[256];
@@ -674,6 +687,7 @@ static carquet_status_t load_dictionary_page_fread(
         CARQUET_SET_ERROR(error, CARQUET_ERROR_FILE_SEEK, "Failed to seek past dict header");
         return CARQUET_ERROR_FILE_SEEK;
     }
+    CARQUET_VERIF_IO_YIELD(1, reader);
 
     /* Allocate and read compressed data */
     uint8_t* compressed = malloc(page_header.compressed_page_size);
@@ -977,6 +991,7 @@ static carquet_status_t load_next_page_fread(
         CARQUET_SET_ERROR(error, CARQUET_ERROR_FILE_SEEK, "Failed to seek to data page");
         return CARQUET_ERROR_FILE_SEEK;
     }
+    CARQUET_VERIF_IO_YIELD(2, reader);
 
     /* Read page header */
     uint8_t header_buf[256];
@@ -1004,6 +1019,7 @@ static carquet_status_t load_next_page_fread(
         CARQUET_SET_ERROR(error, CARQUET_ERROR_FILE_SEEK, "Failed to seek past header");
         return CARQUET_ERROR_FILE_SEEK;
     }
+    CARQUET_VERIF_IO_YIELD(3, reader);
 
     /* Allocate and read compressed data */
     uint8_t* compressed = malloc(page_header.compressed_page_size);
